@@ -352,7 +352,23 @@ fn gen_ops(r: &mut Rng, nm: &mut Names, ni: u64, ng: u64, ns: u64, len: usize, t
             last_pair = Some((e, sx));
             Op::Grant(req, e, sx, r.range(1, 3), ttl)
         } else if k < 66 {
-            Op::Revoke(if r.chance(3, 5) { 0 } else { r.range(1, ni) }, anyent(r), s)
+            let req = if r.chance(3, 5) { 0 } else { r.range(1, ni) };
+            match (&last_pair, r.chance(1, 2)) {
+                (Some((e, sx)), true) => {
+                    // revoke the pair that was (re)granted last, then let that identity try every level
+                    let (e, sx) = (*e, *sx);
+                    ops.push(Op::Revoke(req, e, sx));
+                    ops.push(Op::Perm(e, sx));
+                    if e <= ni {
+                        let v = new_value(r, nm, tag);
+                        ops.push(Op::Get(e, sx));
+                        ops.push(Op::Rotate(e, sx, v));
+                        ops.push(Op::Grant(e, e, sx, 1, None));
+                    }
+                    continue;
+                }
+                _ => Op::Revoke(req, anyent(r), s),
+            }
         } else if k < 68 {
             Op::Sealed(0, r.range(0, ni), s)
         } else if k < 76 {
@@ -658,6 +674,61 @@ fn main() {
         let v0 = new_value(&mut rng, &mut nm, 909);
         let ops = vec![Op::Set(0, 0, v0), Op::Grant(0, 1, 0, 2, Some(0)), Op::Sealed(0, 2, 0), Op::Rotate(1, 0, v0), Op::Sealed(0, 0, 0), Op::Get(1, 0)];
         run_history(909, (1, 2, 10), nm, ops, "corpus expired grant, sealed window, then use", &mut hist, &mut scan, &mut dist, &mut hits);
+    }
+
+    {
+        // seeded C14-r2-1 shape: several access edges for one (identity, secret) pair, then ONE revoke, then
+        // accesses at every level -- grants are never upserted, so the pair holds one edge per grant call
+        let variants: [(&str, Vec<(u64, Option<u64>)>); 5] = [
+            ("Read then Write", vec![(1, None), (2, None)]),
+            ("Write then Read", vec![(2, None), (1, None)]),
+            ("Admin twice", vec![(3, None), (3, None)]),
+            ("permanent Read + 1 h Write", vec![(1, None), (2, Some(LONG))]),
+            ("1 h Admin + permanent Read + permanent Write", vec![(3, Some(LONG)), (1, None), (2, None)]),
+        ];
+        for (vi, (what, gl)) in variants.iter().enumerate() {
+            let tag = 910 + vi as u64;
+            let mut nm = mk_names(&mut rng, 2, 1, 1, tag);
+            let v0 = new_value(&mut rng, &mut nm, tag);
+            let v1 = new_value(&mut rng, &mut nm, tag);
+            let v2 = new_value(&mut rng, &mut nm, tag);
+            let mut ops = vec![Op::Set(0, 0, v0)];
+            for (l, t) in gl {
+                ops.push(Op::Grant(0, 1, 0, *l, *t));
+            }
+            ops.extend([
+                Op::Perm(1, 0),
+                Op::Revoke(0, 1, 0),
+                Op::Perm(1, 0),
+                Op::Get(1, 0),
+                Op::ListExact(1, 0),
+                Op::List(1),
+                Op::Rotate(1, 0, v1),
+                Op::Set(1, 0, v2),
+                Op::Grant(1, 2, 0, 1, None),
+                Op::Delegate(1, 2, vec![0], 1, None),
+                Op::Revoke(1, 2, 0),
+                Op::Delete(1, 0),
+                Op::Get(0, 0),
+            ]);
+            run_history(tag, (1, 2, 10), nm, ops, &format!("corpus repeated grants ({what}) to one pair, one revoke, then every access"), &mut hist, &mut scan, &mut dist, &mut hits);
+        }
+        // the same through a group: two edges group -> secret, revoke the group's grant, the member tries
+        let mut nm = mk_names(&mut rng, 2, 1, 1, 915);
+        let v0 = new_value(&mut rng, &mut nm, 915);
+        let v1 = new_value(&mut rng, &mut nm, 915);
+        let ops = vec![
+            Op::Set(0, 0, v0),
+            Op::Member(1, 3),
+            Op::Grant(0, 3, 0, 2, None),
+            Op::Grant(0, 3, 0, 3, None),
+            Op::Perm(1, 0),
+            Op::Revoke(0, 3, 0),
+            Op::Perm(1, 0),
+            Op::Get(1, 0),
+            Op::Rotate(1, 0, v1),
+        ];
+        run_history(915, (2, 3, 10), nm, ops, "corpus repeated grants to a group, one revoke, member access", &mut hist, &mut scan, &mut dist, &mut hits);
     }
 
     // ---- random long mixed histories
